@@ -17,3 +17,20 @@ contract("C16.is_sidecar_for",
          loops={0: {"invariant": [
              "all(_iter0[k][0] in obj.entity_dict and obj.entity_dict[_iter0[k][0]] == _iter0[k][1] for k in range(_n))"]}},
          assume=["os.path.commonpath([a, b]) / os.path.dirname are uninterpreted (directory-ancestor test trusted)"])
+
+# C16 "at most one such file per directory": the sidecar taken from one directory is the first listed one that applies, None iff none applies
+APPLIES = ("(lambda s: obj.file_path == s.file_path or (obj.suffix == s.suffix"
+           " and dirname_of(s.file_path) == commonpath2(obj.file_path, s.file_path)"
+           " and forall_str(lambda k: implies(k in s.entity_dict, k in obj.entity_dict and obj.entity_dict[k] == s.entity_dict[k]))))")
+class_model("BidsFileGroup", {"sidecar_dir_dict": "Map[Str,List[BidsSidecarFile]]", "root_path": "Str"})
+contract("C16.get_sidecar_for_obj",
+         file="hed/tools/bids/bids_file_group.py", func="BidsFileGroup._get_sidecar_for_obj",
+         params={"self": "BidsFileGroup", "obj": "BidsFile", "current_path": "Str"}, returns="Opt[BidsSidecarFile]", enc="native",
+         lets={"app": APPLIES,
+               "L": "self.sidecar_dir_dict[current_path] if current_path in self.sidecar_dir_dict else []"},
+         ensures={
+             "C16.dir.none_iff_no_applicable_sidecar_in_directory": "(result is None) == all(not app(L[k]) for k in range(len(L)))",
+             "C16.dir.result_applies_and_is_listed": "implies(result is not None, app(result) and any(L[k] is result for k in range(len(L))))",
+             "C16.dir.first_applicable": "implies(result is not None, any(L[k] is result and all(not app(L[j]) for j in range(k)) for k in range(len(L))))",
+         },
+         loops={0: {"invariant": ["all(not " + APPLIES + "(_iter0[k]) for k in range(_n))"]}})
